@@ -584,8 +584,7 @@ def KState.fileState? (s : KState) (f : Key) : Option FileState := (s.find? f).m
 /-- `Workflow.handle_updated_file` -/
 def KState.handleUpdated (s : KState) (f : Key) : M KState :=
   if s.fileState? f = some .confirmed then s.markConsumersPending f
-  else if s.fileState? f = some .planned ∨ s.fileState? f = some .outdated then
-    s.pendCreator f >>= fun s1 => s1.markConsumersPending f
+  else if s.fileState? f = some .planned ∨ s.fileState? f = some .outdated then s.pendCreator f
   else pure s
 
 /-- `Workflow.handle_deleted_file` -/
